@@ -98,6 +98,14 @@ def run_c07(prop, cfg, tier, seed):
         v = il.split(" ", 3)[2]
         verdicts[v] = verdicts.get(v, 0) + 1
         if il != a:
+            # the implementation left the model: does it also leave the specification where the model does not?
+            lr_impl = v != "ok0"
+            if extra is not None and v != "panic" and " thr" not in cl and " rec " not in cl:
+                lr_model = a.split(" ", 3)[2] != "ok0"
+                spec = extra[0] == "1"
+                if lr_impl != spec and lr_model == spec:
+                    viol.append((cl, il, ml, ("accepted" if not lr_impl else "rejected") + " although the specification says left-recursive=%s (the analysis model of the unchanged code decides this grammar correctly)" % extra[0]))
+                    continue
             disagree.append((cl, il, ml))
             continue
         c = classify(cl, il, ml)
@@ -131,10 +139,10 @@ def run_c07(prop, cfg, tier, seed):
         nviol += 1
         p = core.write_replay(prop, "lean_obligation", {"property": prop, "kind": "proof-obligation", "module": cfg["module"], "problems": audit["problems"]})
         printed.append("VIOLATION property=%s replay=%s no-failing-input-found" % (prop, p))
-    for d in disagree:
-        report("correspondence", d[0], d[1], d[2], "model and implementation differ on flags / first graph / verdict")
     for d in viol:
         report("oracle", *d)
+    for d in disagree:
+        report("correspondence", d[0], d[1], d[2], "model and implementation differ on flags / first graph / verdict")
     for fid, (cl, il, why) in known_s.items():
         if fid in lst:
             kf.append("KNOWN-FINDING: property=%s %s %s" % (prop, fid, lst[fid]["what"]))
